@@ -16,6 +16,7 @@
 # define PUSHES 2
 #endif
 #define CAPMAX (2 * N + 6)
+#define SLACK N
 
 static uint8_t out[CAPMAX + 4];
 
@@ -87,12 +88,19 @@ void harness(void)
 	V_ASSERT(out[flen - 1] == 0, "frame ends with its delimiter");
 	for (i = 0; i < CAPMAX + 4; i++) if (i >= cap) V_ASSERT(out[i] == 0xA5, "nothing written beyond the granted space");
 
-	/* decode in place */
-	src.iov_base = out; src.iov_len = flen;
+	/* decode in place; the frame is preceded by SLACK already consumed bytes, the
+	 * buffer space a reader grants for framings whose decoded form is longer than
+	 * the encoded one (zero pairs) */
+	{
+	static uint8_t rd[SLACK + CAPMAX];
+	for (i = 0; i < CAPMAX; i++) rd[SLACK + i] = out[i];
+	dec.curr = SLACK;
+	src.iov_base = rd; src.iov_len = SLACK + flen;
 	d = DEC(&dec, &src, 1);
 	V_ASSERT(d == 1, "decoder delivers a message for a finished frame");
 	V_ASSERT(dec.data.msg == (ssize_t) n, "decoded length equals the message length");
-	V_ASSERT(dec.data.pos + n <= flen, "decoded message lies inside the consumed input");
-	for (i = 0; i < N; i++) if (i < n) V_ASSERT(out[dec.data.pos + i] == m[i], "decoded bytes equal the message");
+	V_ASSERT(dec.data.pos + n <= SLACK + flen, "decoded message lies inside the consumed input");
+	for (i = 0; i < N; i++) if (i < n) V_ASSERT(rd[dec.data.pos + i] == m[i], "decoded bytes equal the message");
+	}
 	V_WITNESS_END();
 }
